@@ -420,30 +420,52 @@ def num_linear(p, res):
 # ------------------------------------------------------------- NUM-SHORTHEX
 @rule('NUM-SHORTHEX', 'D', 'short hex is chosen only when every channel allows it; channels printed in r,g,b order')
 def num_shorthex(p, res):
+    from .. import sympath, shape
     f = p.func('stylesheet.color.as_hex')
-    ifs = [n for n in f.body_nodes() if isinstance(n, ast.If)]
-    chosen = None
-    for n in ifs:
-        if 'to_short_hex' in src_of(ast.Module(body=n.body, type_ignores=[])):
-            chosen = n
-    if chosen is None:
-        raise AnalysisError('NUM-SHORTHEX: no branch selects to_short_hex in as_hex')
-    t = chosen.test
-    conj = sorted(src_of(v) for v in (t.values if isinstance(t, ast.BoolOp) and isinstance(t.op, ast.And) else [t]))
-    want = sorted(['short', 'is_short_hex(token.r)', 'is_short_hex(token.g)', 'is_short_hex(token.b)'])
-    if conj != want:
-        res.bad(F('NUM-SHORTHEX', f, chosen, src_of(t), 'short form requires `short` and is_short_hex of r, g and b; the test has %s' % conj))
-    else:
-        res.ok('short hex under ' + ' and '.join(want))
-    if 'to_hex' not in src_of(ast.Module(body=chosen.orelse, type_ignores=[])):
-        res.bad(F('NUM-SHORTHEX', f, chosen, 'else branch of short-hex test', 'long form must use to_hex'))
-    else:
-        res.ok('else -> to_hex')
-    rets = [n for n in f.body_nodes() if isinstance(n, ast.Return)]
-    if len(rets) == 1 and src_of(rets[0].value) == "'#%s%s%s' % (fn(token.r), fn(token.g), fn(token.b))":
-        res.ok(src_of(rets[0].value))
-    else:
-        res.bad(F('NUM-SHORTHEX', f, rets[0] if rets else f.node, src_of(rets[0].value) if rets else 'return', "hex colour is '#' + fn(r) + fn(g) + fn(b)"))
+    tok, sh = f.params[0], f.params[1]
+    try:
+        paths = sympath.feasible(sympath.summaries(p, f, inline=False, pure=('is_short_hex', 'to_short_hex', 'to_hex')))
+    except sympath.Unsupported as e:
+        paths = []
+        res.undecided('as_hex', str(e))
+    need = {sh: True, 'is_short_hex(%s.r)' % tok: True, 'is_short_hex(%s.g)' % tok: True, 'is_short_hex(%s.b)' % tok: True}
+    n_short = n_long = 0
+    for q in paths:
+        parts = shape.strparts(q.ret) if q.ret is not None else None
+        where = ['path: ' + q.cond_str()]
+        if parts is None or len(parts) != 4 or parts[0] != '#' or not all(isinstance(x, tuple) for x in parts[1:]):
+            res.undecided('as_hex returns %s' % (src_of(q.ret) if q.ret is not None else None), "'#' + fn(r) + fn(g) + fn(b)")
+            continue
+        calls = [ast.parse(x[1], mode='eval').body for x in parts[1:]]
+        if not all(isinstance(c, ast.Call) and isinstance(c.func, ast.Name) and len(c.args) == 1 for c in calls):
+            res.undecided('as_hex returns %s' % src_of(q.ret), 'three formatted channels')
+            continue
+        fns = {c.func.id for c in calls}
+        chans = [src_of(c.args[0]) for c in calls]
+        if chans != ['%s.r' % tok, '%s.g' % tok, '%s.b' % tok]:
+            res.bad(F('NUM-SHORTHEX', f, f.node, src_of(q.ret), 'channels must be printed in r, g, b order, each once (is %s)' % chans, details=where))
+            continue
+        if len(fns) != 1:
+            res.bad(F('NUM-SHORTHEX', f, f.node, src_of(q.ret), 'short and long channel forms are mixed in one colour', details=where))
+            continue
+        fn_ = fns.pop()
+        rc = q.rconds()
+        have = {k: rc.get(k) for k in need}
+        if fn_ == 'to_short_hex':
+            missing = [k for k, v in have.items() if v is not True]
+            if missing:
+                res.bad(F('NUM-SHORTHEX', f, f.node, 'short form [%s]' % q.cond_str(), 'short form requires `short` and is_short_hex of r, g and b; this path does not establish %s' % missing, details=where))
+            else:
+                n_short += 1
+        elif fn_ == 'to_hex':
+            if all(v is True for v in have.values()):
+                res.bad(F('NUM-SHORTHEX', f, f.node, 'long form [%s]' % q.cond_str(), 'the short form is requested and possible but the long form is printed', details=where))
+            else:
+                n_long += 1
+        else:
+            res.undecided('as_hex formats channels with %s' % fn_, 'to_hex / to_short_hex')
+    if n_short and n_long:
+        res.ok('as_hex: short form exactly under short and is_short_hex(r), (g), (b); channels in r, g, b order', n=3)
     ev = MiniEval(p, hooks={'emmet.stylesheet.color.frac': lambda num, digits=4: str(num)})
     ish = p.func('stylesheet.color.is_short_hex')
     tsh = p.func('stylesheet.color.to_short_hex')
@@ -487,11 +509,19 @@ def num_shorthex(p, res):
     if tbl_ok:
         res.ok('color(): transparent / #hex / rgba( decision table (6 classes)')
     ar = p.func('stylesheet.color.as_rgb')
-    s = src_of(ar.node)
-    if 'values = [str(token.r), str(token.g), str(token.b)]' in s and 'values.append(frac(token.a, 8))' in s:
+    VA = shape.View(p, ar, inline=False)
+    t2 = ar.params[0]
+    lst = VA.find_stmt('$v = [str(%s.r), str(%s.g), str(%s.b)]' % (t2, t2, t2))
+    apps = [c for c in VA.calls('append')]
+    if len(lst) == 1 and len(apps) == 1 and src_of(apps[0].func.value) == src_of(lst[0][1]['v']) and src_of(apps[0].args[0]).startswith('frac(%s.a' % t2) \
+            and any(isinstance(n, ast.Call) and isinstance(n.func, ast.Attribute) and n.func.attr == 'join' and n.args and src_of(n.args[0]) == src_of(lst[0][1]['v']) for n in VA.nodes):
         res.ok('as_rgb: r, g, b, alpha order')
     else:
-        res.bad(F('NUM-SHORTHEX', ar, ar.node, 'as_rgb value list', 'rgba components must be r, g, b then alpha'))
+        disp = [n for n in VA.nodes if isinstance(n, ast.List) and len(n.elts) >= 3 and all(isinstance(e, ast.Call) and src_of(e.func) == 'str' for e in n.elts[:3])]
+        if disp and [src_of(e.args[0]) for e in disp[0].elts[:3]] != ['%s.r' % t2, '%s.g' % t2, '%s.b' % t2]:
+            res.bad(F('NUM-SHORTHEX', ar, disp[0], src_of(disp[0]), 'rgba components must be r, g, b then alpha'))
+        else:
+            res.undecided('as_rgb value list', 'rgba components must be r, g, b then alpha')
     res.require_floor(8)
 
 
